@@ -680,6 +680,16 @@ def run_unit_inner(unit, tier, seed):
         viol = [v for v in viol if v["id"] in stable_ids]
         for v in unstable:
             undec.append({"unit": unit, "reason": "unstable obligation (fails under some seeds only)", "id": v["id"]})
+    if tier == "thorough" and not undec and not viol and REPO == "/repo":
+        # reachability of every labelled assertion spliced into a body: `assert(false)` at the same spot must fail
+        try:
+            import audit_asserts
+            bad = [lab for lab, verdict in audit_asserts.audit_unit(unit) if verdict == "UNREACHABLE"]
+            r["spliced_assertions_audited"] = True
+            if bad:
+                undec.append({"unit": unit, "reason": "vacuity guard: a spliced assertion sits where `assert(false)` also verifies (unreachable spot or resource limit)", "labels": bad})
+        except Exception as e:  # the audit is an extra; its own failure decides nothing
+            r["spliced_assertions_audited"] = f"audit failed: {e}"
     if tier == "thorough" and not undec:
         # second opinions: 3 seeds + cvc5 (cvc5-only failure = undecided)
         for k in (seed + 11, seed + 12, seed + 13):
